@@ -566,6 +566,22 @@ pub fn c10_case(seed: u64, case: u64, prof: &Profile, dense: bool) -> CaseResult
         junk.push((format!("{}.pack", sha(b"[{\"other\":true}]")), files[pk].clone()));
         junk.push((format!("1-{}.delta", sha(&files[pk])), files[pk].clone()));
     }
+    // intact bytes stored under a name that only resembles their hash: a proper prefix of the
+    // digest, upper-case hex, one digit more
+    for k in keys.iter().filter(|k| k.ends_with(".delta")).take(2) {
+        let stem = k.strip_suffix(".delta").unwrap();
+        if let Some((i, h)) = refmodel::stem_idx(stem) {
+            junk.push((format!("{}-{}.delta", i, &h[..12]), files[k].clone()));
+            junk.push((format!("{}-{}.delta", i, h.to_uppercase()), files[k].clone()));
+            junk.push((format!("{}-{}0.delta", i, h), files[k].clone()));
+            junk.push((format!("{}-{}.delta", i + 1, h), files[k].clone()));
+        }
+    }
+    if let Some(pk) = &some_pack {
+        let h = pk.strip_suffix(".pack").unwrap();
+        junk.push((format!("{}.pack", &h[..10]), files[pk].clone()));
+        junk.push((format!("{}.pack", h.to_uppercase()), files[pk].clone()));
+    }
     // structurally wrong blocks stored under the correct hash of their bytes (a junk file may be
     // named anything): both the library and the reference model must reject them
     for body in [
@@ -683,6 +699,59 @@ pub fn c10_case(seed: u64, case: u64, prof: &Profile, dense: bool) -> CaseResult
                 }
                 Outcome::Err(_) => res.count("c10_reported_error", 1),
                 Outcome::Panic(p) => res.viol("C10", "panic-on-damaged-storage", format!("refresh after in-place damage of {}: {}", pk, p)),
+            }
+        }
+    }
+    // ---- a damaged local copy of a block, then meld from a peer that holds it intact: write-once
+    // storage keeps the damaged bytes, so the block must stay without effect on this replica
+    {
+        let blocks: Vec<&String> = keys.iter().filter(|k| k.ends_with(".delta")).collect();
+        for _ in 0..(if dense { 12 } else { 4 }) {
+            if blocks.is_empty() {
+                break;
+            }
+            let k = blocks[r.below(blocks.len())].clone();
+            let orig = &files[&k];
+            if orig.len() < 4 {
+                continue;
+            }
+            let mut local = files.clone();
+            let dmg = match r.below(3) {
+                0 => orig[..orig.len() / 2].to_vec(),
+                1 => {
+                    let mut v = orig.clone();
+                    let p = r.below(v.len());
+                    v[p] ^= 1 << r.below(8);
+                    v
+                }
+                _ => vec![],
+            };
+            local.insert(k.clone(), dmg);
+            let lad = store::mem_with(&local);
+            let pad = store::mem_with(&files);
+            set_caps((2, 2));
+            let out = guard(|| {
+                let mut lm = Melda::new(lad.clone())?;
+                let pm = Melda::new(pad.clone())?;
+                lm.meld(&pm)?;
+                lm.refresh()?;
+                Ok(lm)
+            });
+            res.count("c10_damaged_local_copy_then_meld", 1);
+            match out {
+                Outcome::Ok(lm) => {
+                    let o = observe(&lm);
+                    let eff = store::dump(&lad);
+                    check_closure(&mut res, "C10", "damaged-local-copy-after-meld", &o, &eff);
+                    if let Outcome::Ok(fm) = open_with(&store::mem_with(&eff), (2, 2)) {
+                        let of = observe(&fm);
+                        if of.s_string() != o.s_string() || of.anchors != o.anchors {
+                            res.viol("C10", "live-replica-differs-from-fresh-open-after-meld-over-damaged-copy", format!("{}: {}", k, of.diff(&o)));
+                        }
+                    }
+                }
+                Outcome::Err(_) => res.count("c10_reported_error", 1),
+                Outcome::Panic(p) => res.viol("C10", "panic-on-damaged-storage", format!("meld over damaged local copy of {}: {}", k, p)),
             }
         }
     }
